@@ -99,6 +99,8 @@ func coreSkeletons(tier string) []NamedSkel {
 		{"S2[L(S)]", ss("f1", sp(KStr), "f2", sl(ss("g1", sp(KStr), "g2", sp(KInt))))},
 		{"S2[R(S)]", ss("f1", sr(ss("g1", sp(KStr), "g2", sp(KInt))), "f2", sp(KStr))},
 		{"L(S[L])", sl(ss("g1", sp(KStr), "g2", sl(sp(KInt))))},
+		// keys that are Go identifiers beginning with a non-ASCII upper-case letter (exported as they stand)
+		{"S2uni", ss("Émail", sp(KStr), "Ünits", sr(ss("Ñame", sp(KStr))))},
 	}
 	if tier == "thorough" {
 		list = append(list,
@@ -169,11 +171,13 @@ type Alpha struct {
 	FE       bool // front-end alphabets (C10, C14): {plain, required, two tests} × {valid, missing, nil, empty, failing, uncoercible}
 	Full     bool // C13: fully populated values only (no zero leaf, no empty slice, no nil pointer)
 	Lite     bool // reduced configuration/input alphabets (used where another dimension is added)
+	DefZero  bool // C04: the Default alphabet has a fourth value, a default equal to the Go zero value
 	PathOpt  bool // C02: the test alphabet has a fourth option {t1 with IssuePath("alias"), t2}
 	DoubleT2 bool // C05: the custom test of Int nodes is a free-form test function that reports two issues when it fails
 	PathT1   bool // C05: the built-in test t1 of every node is declared with IssuePath("alias@<node>")
 	NegStr   bool // C05: the second test of a string node is the built-in negated test Not().Contains("2") instead of a TestFunc with the same predicate
 	NoBracket bool // the tag assignment already names a list field with a "[]" suffix: no "only under key[]" input class
+	OldIface bool // C12: the custom test of non-catching Int nodes files its issue through the deprecated Ctx.NewError
 	MutPost  bool // C13: value-changing PostTransforms are part of the alphabet {none, one changing, changing + plain}
 }
 
@@ -183,11 +187,14 @@ func (a *Alpha) primCfgN(k Kind) int {
 		return 3
 	}
 	if a.Lite {
-		return 6
+		return 7
 	}
 	n := 2 * 3 * 2 * 3
 	if a.PathOpt && k != KBool {
 		n = 2 * 4 * 2 * 3
+	}
+	if a.DefZero {
+		n = n / 3 * 4
 	}
 	if a.NoCatch {
 		n /= 2
@@ -196,6 +203,15 @@ func (a *Alpha) primCfgN(k Kind) int {
 }
 
 func (a *Alpha) primCfg(n *Node, idx int) {
+	if a.OldIface && n.Kind == KInt {
+		defer func() {
+			for i := range n.Tests {
+				if !n.Tests[i].Builtin && !n.Catch {
+					n.Tests[i].ViaOld = true
+				}
+			}
+		}()
+	}
 	t1, t2 := kindTests(n.Kind)
 	if a.NegStr && n.Kind == KStr {
 		t2 = TestSpec{Code: "not_contained", Builtin: true, Pred: t2.Pred}
@@ -224,6 +240,8 @@ func (a *Alpha) primCfg(n *Node, idx int) {
 			n.DefClass = 1
 		case 4:
 			n.Tests = []TestSpec{t1, t2}
+		case 6:
+			n.DefClass = 3 // a default equal to the zero value
 		case 5:
 			// both tests, the built-in one filed under a path that every node with this configuration shares
 			if n.Kind != KBool { // Bool.True() takes no options
@@ -244,8 +262,12 @@ func (a *Alpha) primCfg(n *Node, idx int) {
 	idx /= nt
 	n.Req = idx%2 == 1
 	idx /= 2
-	n.DefClass = idx % 3
-	idx /= 3
+	nd := 3
+	if a.DefZero {
+		nd = 4 // also: a default equal to the Go zero value
+	}
+	n.DefClass = idx % nd
+	idx /= nd
 	if !a.NoCatch {
 		n.Catch = idx%2 == 1
 	}
@@ -281,11 +303,21 @@ type inClass struct {
 	Missing bool
 }
 
+// failingClass: the one failing value of the reduced alphabets. It fails BOTH tests of the kind (the built-in t1
+// and the hand-written t2), so every configuration with a test reports something on it; Bool has no such value
+// (its t2 always holds) and keeps the value that fails t1.
+func failingClass(k Kind) inClass {
+	if k == KBool {
+		return inClass{"fail1", primValue(k, VFail1), false}
+	}
+	return inClass{"failB", primValue(k, VFailB), false}
+}
+
 // Parse inputs of a primitive; index 0 is the valid native value.
 func (a *Alpha) primParseInputs(k Kind) []inClass {
 	valid := primValue(k, VValid)
 	if a.FE {
-		out := []inClass{{"valid", valid, false}, {"missing", nil, true}, {"nil", nil, false}, {"empty", "", false}, {"fail1", primValue(k, VFail1), false}}
+		out := []inClass{{"valid", valid, false}, {"missing", nil, true}, {"nil", nil, false}, {"empty", "", false}, failingClass(k)}
 		if k != KStr {
 			out = append(out, inClass{"uncoercible", "abc", false})
 		}
@@ -293,7 +325,7 @@ func (a *Alpha) primParseInputs(k Kind) []inClass {
 		return out
 	}
 	if a.Lite {
-		out := []inClass{{"valid", valid, false}, {"missing", nil, true}, {"fail1", primValue(k, VFail1), false}}
+		out := []inClass{{"valid", valid, false}, {"missing", nil, true}, failingClass(k)}
 		if k != KStr {
 			out = append(out, inClass{"uncoercible", "abc", false})
 		}
@@ -330,7 +362,7 @@ var tZero = reflect.Zero(primType(KTime)).Interface()
 // Validate inputs of a primitive (values already in the destination).
 func (a *Alpha) primValidateInputs(k Kind) []inClass {
 	if a.FE {
-		return []inClass{{"valid", primValue(k, VValid), false}, {"zero", reflect.Zero(primType(k)).Interface(), false}, {"fail1", primValue(k, VFail1), false}}
+		return []inClass{{"valid", primValue(k, VValid), false}, {"zero", reflect.Zero(primType(k)).Interface(), false}, failingClass(k)}
 	}
 	if a.Full {
 		out := []inClass{{"valid", primValue(k, VValid), false}}
@@ -340,7 +372,7 @@ func (a *Alpha) primValidateInputs(k Kind) []inClass {
 		return out
 	}
 	if a.Lite {
-		return []inClass{{"valid", primValue(k, VValid), false}, {"zero", reflect.Zero(primType(k)).Interface(), false}, {"fail1", primValue(k, VFail1), false}}
+		return []inClass{{"valid", primValue(k, VValid), false}, {"zero", reflect.Zero(primType(k)).Interface(), false}, failingClass(k)}
 	}
 	out := []inClass{{"valid", primValue(k, VValid), false}, {"zero", reflect.Zero(primType(k)).Interface(), false}, {"fail1", primValue(k, VFail1), false}}
 	if k != KBool {
